@@ -4,6 +4,16 @@ mod tests;
 use std::{panic, thread};
 use std::sync::{Arc, mpsc, Mutex};
 
+#[cfg(rws_verif)]
+pub mod verif_hook {
+    //! observation points for the verification harness in /verif; compiled only with `--cfg rws_verif`
+    use std::sync::OnceLock;
+    #[derive(Clone, Copy, Debug, PartialEq)]
+    pub enum Event { Submit, LockAcquired(usize), Received(usize), Finished(usize), Panicked(usize) }
+    pub static HOOK: OnceLock<Box<dyn Fn(Event) + Send + Sync>> = OnceLock::new();
+    pub fn emit(e: Event) { if let Some(h) = HOOK.get() { h(e) } }
+}
+
 pub struct ThreadPool {
     _workers: Vec<Worker>,
     sender: mpsc::Sender<Job>,
@@ -35,6 +45,7 @@ impl ThreadPool {
             F: FnOnce() + Send  + 'static,
     {
         let job = Box::new(f);
+        #[cfg(rws_verif)] verif_hook::emit(verif_hook::Event::Submit);
         let boxed_send = self.sender.send(job);
         if boxed_send.is_err() {
             eprintln!("unable to send job: {}", boxed_send.err().unwrap());
@@ -60,18 +71,22 @@ impl Worker {
             if boxed_lock.is_err() {
                 eprintln!("Worker {} -> unable to acquire lock {}", id, boxed_lock.err().unwrap());
             } else {
+                #[cfg(rws_verif)] verif_hook::emit(verif_hook::Event::LockAcquired(id));
                 let boxed_job = boxed_lock.unwrap().recv();
                 if boxed_job.is_err() {
                     eprintln!("Worker {} -> unable to get job to execute {}", id, boxed_job.err().unwrap());
                 } else {
                     let job = boxed_job.unwrap();
+                    #[cfg(rws_verif)] verif_hook::emit(verif_hook::Event::Received(id));
 
                     println!("Worker {} got a job; executing.", id);
 
                     let boxed_execution = panic::catch_unwind(panic::AssertUnwindSafe(job));
                     if boxed_execution.is_err() {
                         eprintln!("Worker {} -> job panicked, worker continues to serve", id);
+                        #[cfg(rws_verif)] verif_hook::emit(verif_hook::Event::Panicked(id));
                     }
+                    #[cfg(rws_verif)] verif_hook::emit(verif_hook::Event::Finished(id));
                 }
 
             }
